@@ -163,12 +163,31 @@ void tcss_io_log(const char *path) {
   pthread_mutex_unlock(&io_mu);
 }
 
-/* returns the suffix class of a database path, or NULL when the path is not ours */
+static char io_dir[1024];
+static int io_dir_init;
+
+/* returns the class of a path, or NULL when the path is not ours.
+   With $TCSS_IO_DIR set: every file below that directory (the "-shm" file excluded), class = path
+   relative to the directory.  Otherwise: the SQLite database files by name (db / wal / journal). */
 static const char *classify_path(const char *p) {
+  static __thread char rel[1200];
+  if (!io_dir_init) {
+    const char *d = getenv("TCSS_IO_DIR");
+    if (d) { strncpy(io_dir, d, sizeof(io_dir) - 2); size_t n = strlen(io_dir); if (n && io_dir[n - 1] != '/') { io_dir[n] = '/'; io_dir[n + 1] = 0; } }
+    io_dir_init = 1;
+  }
+  size_t lp = strlen(p);
+  if (lp >= 4 && strcmp(p + lp - 4, "-shm") == 0) return NULL;
+  if (io_dir[0]) {
+    size_t n = strlen(io_dir);
+    if (strncmp(p, io_dir, n) != 0 || p[n] == 0) return NULL;
+    strncpy(rel, p + n, sizeof(rel) - 1);
+    for (char *c = rel; *c; c++) if (*c == ' ') *c = '_';
+    return rel;
+  }
   const char *q = strstr(p, DBNAME);
   if (!q) return NULL;
   q += strlen(DBNAME);
-  if (strncmp(q, "-shm", 4) == 0) return NULL;
   if (*q == 0) return "db";
   if (strncmp(q, "-wal", 4) == 0) return "wal";
   if (strncmp(q, "-journal", 8) == 0) return "journal";
@@ -329,6 +348,35 @@ int unlink(const char *path) {
     return r;
   }
   return real(path);
+}
+
+int rename(const char *from, const char *to) {
+  static int (*real)(const char *, const char *);
+  if (!real) real = dlsym(RTLD_NEXT, "rename");
+  const char *c1 = classify_path(from);
+  if (c1) {
+    char a[1200]; strncpy(a, c1, sizeof(a) - 1); a[sizeof(a) - 1] = 0;
+    const char *c2 = classify_path(to);
+    char both[2500];
+    snprintf(both, sizeof both, "%s>%s", a, c2 ? c2 : "?");
+    int d = io_gate("rename", both, 0, 0, NULL, NULL);
+    if (d == 1) FAIL_RET(-1);
+    int r = real(from, to);
+    if (d == 2) FAIL_RET(-1);
+    return r;
+  }
+  return real(from, to);
+}
+
+int mkdir(const char *path, mode_t mode) {
+  static int (*real)(const char *, mode_t);
+  if (!real) real = dlsym(RTLD_NEXT, "mkdir");
+  const char *cls = classify_path(path);
+  if (cls) {
+    int d = io_gate("mkdir", cls, 0, 0, NULL, NULL);
+    if (d == 1) FAIL_RET(-1);
+  }
+  return real(path, mode);
 }
 
 static int open_common(const char *which, int dirfd, const char *path, int flags, mode_t mode) {
